@@ -1,11 +1,15 @@
 package main
 
 import (
+	"encoding/hex"
+	"encoding/json"
 	"fmt"
 	"reflect"
 	"regexp"
+	"strconv"
 	"strings"
 	"sync"
+	"unicode/utf8"
 
 	"github.com/cossacklabs/acra/sqlparser"
 
@@ -15,7 +19,7 @@ import (
 // caseT is the replay payload: it fully determines one element of the space.
 type caseT struct {
 	Dialect string `json:"dialect"`
-	Kind    string `json:"kind"` // seed | grammar | splice | subst
+	Kind    string `json:"kind"` // seed | grammar | idents | splice | subst | observers
 	SQL     string `json:"statement"`
 	// splice: SQL is the host statement; the Slot-th expression slot of its tree is replaced
 	// by the Sub-th expression sub-tree of Donor (wrapped in ParenExpr unless atomic).
@@ -27,6 +31,54 @@ type caseT struct {
 	Index int    `json:"literal_index,omitempty"`
 	Bytes string `json:"bytes_hex,omitempty"`
 	Menu  string `json:"bytes_name,omitempty"`
+	// observers: the oracle's description of the statement (obs_space.go)
+	Obs *obsDesc `json:"observers,omitempty"`
+}
+
+// Statements may hold bytes that are not UTF-8 (identifier phase); JSON strings cannot, so
+// such texts travel as hex in the replay file.
+type caseJSON caseT
+
+func (c caseT) MarshalJSON() ([]byte, error) {
+	x := struct {
+		caseJSON
+		SQLHex   string `json:"statement_hex,omitempty"`
+		DonorHex string `json:"donor_hex,omitempty"`
+	}{caseJSON: caseJSON(c)}
+	if !utf8.ValidString(c.SQL) {
+		x.SQLHex, x.SQL = hex.EncodeToString([]byte(c.SQL)), strconv.QuoteToASCII(c.SQL)
+	}
+	if !utf8.ValidString(c.Donor) {
+		x.DonorHex, x.Donor = hex.EncodeToString([]byte(c.Donor)), strconv.QuoteToASCII(c.Donor)
+	}
+	return json.Marshal(x)
+}
+
+func (c *caseT) UnmarshalJSON(b []byte) error {
+	var x struct {
+		caseJSON
+		SQLHex   string `json:"statement_hex,omitempty"`
+		DonorHex string `json:"donor_hex,omitempty"`
+	}
+	if err := json.Unmarshal(b, &x); err != nil {
+		return err
+	}
+	*c = caseT(x.caseJSON)
+	if x.SQLHex != "" {
+		raw, err := hex.DecodeString(x.SQLHex)
+		if err != nil {
+			return err
+		}
+		c.SQL = string(raw)
+	}
+	if x.DonorHex != "" {
+		raw, err := hex.DecodeString(x.DonorHex)
+		if err != nil {
+			return err
+		}
+		c.Donor = string(raw)
+	}
+	return nil
 }
 
 var cmpOpts = sqlgen.Options{OrderByConstant: true, QuotedLowerIdent: true, PlaceholderNames: true}
